@@ -34,5 +34,13 @@ Relevant(c) == /\ ("alias" \notin c.defs => (c.target = "out" /\ c.odefs = {}))
 \* sanity: an alias never resolves to an alias again, and privates always win
 ASSUME \A c \in Cases : ("private" \in c.defs => c.runs = "private")
 ASSUME \A c \in Cases : c.runs \notin {"other-alias"}
+(* ---- across modules: a public function of module A runs the name; the line that runs it stands in module A, ---- *)
+(* ---- whoever called the public function (code of another module B)                                       ---- *)
+\* defsA: definitions of the name that module A can see (its own private, the global alias / function / external);
+\* privB: the calling module B has a private of the same name - which must not matter
+XResolve(defsA, privB) == Resolve(defsA, "out", {})
+XCases == {[defs |-> d, privB |-> b, runs |-> XResolve(d, b)] : d \in SUBSET (Kinds \ {"builtin"}), b \in BOOLEAN}
+ASSUME \A c \in XCases : c.runs = XResolve(c.defs, ~c.privB)
 ASSUME ndJsonSerialize("cases.ndjson", SetToSeq({c \in Cases : Relevant(c)}))
+ASSUME ndJsonSerialize("xcases.ndjson", SetToSeq(XCases))
 =============================================================================
